@@ -317,10 +317,19 @@ func (g *gen) responses() []*node {
 			if code == 0 || !g.r.Chance(2, 3) {
 				continue
 			}
-			if g.r.Chance(1, 2) {
+			switch g.r.Intn(3) {
+			case 0:
 				out = append(out, &node{head: fmt.Sprintf("%d empty", code)}, &node{head: fmt.Sprintf("%d empty", code)})
-			} else {
+			case 1:
 				out = append(out, g.response(code))
+			default:
+				// the same response once more, VERBATIM, and a different one: three of one code, two
+				// of them identical (what a de-duplicating serialiser has to keep in order)
+				g.feat("identical-repeated-responses")
+				out = append(out, nd, g.response(code))
+				if g.r.Chance(1, 2) {
+					out = append(out, g.response(code))
+				}
 			}
 		}
 	}
